@@ -40,6 +40,11 @@ CLAIMED = {
     text="Unbounded proof over the number of children, arbitrary prior power/hopping/queue state, both power directions, with/without own clock and running/stopped generator; port plan proved for symbolic base port and child index. Application wiring is a bounded stand-in (existing lists 0..2), labelled as such.",
     note="Trusted: PyVC builtin models; CLCKGen.start/stop thread semantics; socket bind modelled as recording the address; children pairwise distinct.",
     design="9/C12"),
+ "C09": dict(
+    technique="contract-based deductive verification: PyVC VCs from the live clck_gen.py under a ghost virtual clock; loop invariant of _worker (absolute deadlines t0 + (k-k0)*t_tick, one tick per iteration, resync on overrun), loop invariant of send_clck_ind over a link list of symbolic length; z3",
+    text="Unbounded proof over all handler-duration patterns (the clock may advance arbitrarily at every call), all start frames incl. 2715647, all periods >= 1 and link sets, any number of iterations (inductive invariant).",
+    note="Trusted: virtual-clock contracts of time.monotonic_ns and Event.wait (float dt*1e-9 taken as dt ns), threading.Thread/Event semantics, sched_rr_prio None; real scheduler jitter is outside the property.",
+    design="9/C09"),
 }
 NOT_YET = "check not built yet in this session (design in DESIGN.md section 9); will be claimed when its obligations are discharged"
 
